@@ -107,6 +107,34 @@ fn conditional_graph(
     Ok(cfg)
 }
 
+// Branch-and-link instructions write the return address before the delay slot
+// executes (the delay slot sees the new value and may overwrite it), and
+// bgezal/bltzal decide before the delay slot like every conditional branch. This
+// graph takes the place of the nop emitted for plain jumps.
+fn link_graph(
+    address: u64,
+    link: Scalar,
+    branching_condition: Option<Expression>,
+) -> Result<ControlFlowGraph, Error> {
+    let mut cfg = ControlFlowGraph::new();
+
+    let block_index = {
+        let block = cfg.new_block()?;
+        if let Some(branching_condition) = branching_condition {
+            block.assign(scalar("branching_condition", 1), branching_condition);
+        }
+        block.assign(link, expr_const(address + 8, 32));
+        block.index()
+    };
+
+    cfg.set_entry(block_index)?;
+    cfg.set_exit(block_index)?;
+
+    cfg.set_address(Some(address));
+
+    Ok(cfg)
+}
+
 fn translate_block(
     bytes: &[u8],
     address: u64,
@@ -661,7 +689,23 @@ fn translate_block(
                 | capstone::mips_insn::MIPS_INS_BLTZAL
                 | capstone::mips_insn::MIPS_INS_JAL
                 | capstone::mips_insn::MIPS_INS_JALR => {
-                    block_graphs.push((instruction.address, nop_graph(instruction.address)?));
+                    let link = match instruction_id {
+                        capstone::mips_insn::MIPS_INS_JALR => semantics::jalr_link(&instruction)?,
+                        _ => scalar("$ra", 32),
+                    };
+                    let condition = match instruction_id {
+                        capstone::mips_insn::MIPS_INS_BGEZAL => {
+                            Some(semantics::and_link_condition(&instruction, false)?)
+                        }
+                        capstone::mips_insn::MIPS_INS_BLTZAL => {
+                            Some(semantics::and_link_condition(&instruction, true)?)
+                        }
+                        _ => None,
+                    };
+                    block_graphs.push((
+                        instruction.address,
+                        link_graph(instruction.address, link, condition)?,
+                    ));
                     branch_delay = TranslateBranchDelay::BranchFallThrough;
                 }
                 capstone::mips_insn::MIPS_INS_JR => {
